@@ -125,6 +125,29 @@ struct Owned {
     h: Box<dyn HandleDyn>,
 }
 
+/// A thread's handles. When the run is being aborted (a verdict was reached: the thread unwinds) the handles are *not*
+/// dropped: after a double free or a lost reference the crate's destructors may spin for good -- with the run aborted no hook
+/// is a scheduling point any more, so that would block the process instead of reporting the verdict.
+struct Stash(Vec<Owned>);
+impl Drop for Stash {
+    fn drop(&mut self) {
+        if ctx::aborted() || std::thread::panicking() {
+            std::mem::forget(std::mem::take(&mut self.0));
+        }
+    }
+}
+impl std::ops::Deref for Stash {
+    type Target = Vec<Owned>;
+    fn deref(&self) -> &Vec<Owned> {
+        &self.0
+    }
+}
+impl std::ops::DerefMut for Stash {
+    fn deref_mut(&mut self) -> &mut Vec<Owned> {
+        &mut self.0
+    }
+}
+
 pub fn ledger_begin(id: u32, live_delta: i32) {
     ctx::with_ctx(|c| {
         *c.ledger.live.entry(id).or_insert(0) += live_delta;
@@ -227,7 +250,7 @@ fn handles_body(p: &HandleParams) {
     let mut handles = vec![];
     for (t, ops) in p.threads.iter().enumerate() {
         let (ops, inboxes, leftovers) = (ops.clone(), Arc::clone(&inboxes), Arc::clone(&leftovers));
-        let mut stash = std::mem::take(&mut stashes[t]);
+        let mut stash = Stash(std::mem::take(&mut stashes[t]));
         let to_main = p.leftovers_to_main;
         let pool2 = Arc::clone(&pool);
         let publics2 = Arc::clone(&publics);
@@ -236,7 +259,6 @@ fn handles_body(p: &HandleParams) {
             let key = move |oracle: &str| format!("handles/{}/{}", alloc_name, oracle);
             for op in ops {
                 if ctx::aborted() {
-                    std::mem::forget(stash);
                     return;
                 }
                 stash.append(&mut inboxes[t].lock().unwrap());
@@ -393,7 +415,6 @@ fn handles_body(p: &HandleParams) {
                 }
             }
             if ctx::aborted() {
-                std::mem::forget(stash);
                 return;
             }
             if to_main {
